@@ -183,10 +183,13 @@ pub fn shrink<P: Property>(p: &P, mut tree: Box<dyn ValueTree<Value = P::Case>>,
     let mut last = tree.current();
     let mut last_f = fails(&last).unwrap_or_else(|| Failure::new(key, "(not reproduced on re-run: depends on hidden state)"));
     let mut iters = 0u32;
+    // (minimisation is a courtesy: when failing evaluations are slow — they wait out time limits — it stops after 90 s
+    // and the case is reported less small)
+    let started = std::time::Instant::now();
     if tree.simplify() {
         loop {
             iters += 1;
-            if iters > p.shrink_budget().0 {
+            if iters > p.shrink_budget().0 || started.elapsed() > std::time::Duration::from_secs(90) {
                 break;
             }
             let cur = tree.current();
@@ -242,7 +245,11 @@ pub fn reduce_structurally<P: Property>(p: &P, case: P::Case, key: &str, fail: F
     let mut best = case;
     let mut best_f = fail;
     let mut budget = p.shrink_budget().1;
+    let started = std::time::Instant::now();
     'outer: loop {
+        if started.elapsed() > std::time::Duration::from_secs(90) {
+            break;
+        }
         let json = serde_json::to_value(&best).unwrap();
         let mut list = Vec::new();
         arrays(&json, &mut Vec::new(), &mut list);
@@ -257,7 +264,7 @@ pub fn reduce_structurally<P: Property>(p: &P, case: P::Case, key: &str, fail: F
                 spans.push((i, i + 1));
             }
             for (lo, hi) in spans {
-                if budget == 0 {
+                if budget == 0 || started.elapsed() > std::time::Duration::from_secs(90) {
                     break 'outer;
                 }
                 let mut cand = json.clone();
@@ -306,7 +313,7 @@ pub fn reduce_structurally<P: Property>(p: &P, case: P::Case, key: &str, fail: F
             let chars: Vec<char> = sv.chars().collect();
             let cands = [String::new(), chars[..chars.len() / 2].iter().collect::<String>(), chars[chars.len() / 2..].iter().collect::<String>(), chars[..chars.len() - 1].iter().collect::<String>()];
             for cs in cands {
-                if budget == 0 {
+                if budget == 0 || started.elapsed() > std::time::Duration::from_secs(90) {
                     break 'outer;
                 }
                 let mut cand = json.clone();
